@@ -2622,7 +2622,7 @@ class FnCtx:
                     ev = every_iteration(ft, lp, c.block) if cnt_ and c.block in lp.own else False
                     # an early exit of the loop (break / return) lowers the count but never raises it
                     exits = [(x, y) for x, y in lp.exits if x != lp.item_switch and ft.blocks[y]["term"]["k"] != "unreachable"]
-                    leaves_fn = all(not ft.cfg.can_reach(y, lp.head) and self._exit_leaves(y, cb) for x, y in exits)
+                    leaves_fn = all(not ft.cfg.can_reach(y, lp.head) and self._exit_leaves(y, cb, local) for x, y in exits)
                     nlo = nlo * tl if (ev and (not exits or leaves_fn)) else 0
                     nhi = nhi * th
             lo += nlo
@@ -2733,9 +2733,29 @@ class FnCtx:
                         out = join(out, ety)
         return out if seen else ety
 
-    def _exit_leaves(self, y, cb):
+    def _exit_leaves(self, y, cb, local=None):
         """does the loop exit through block y leave the function with an error (never reaching a normal use)?"""
         reach = self.ft.cfg.reachable_from(y)
+        if local is not None:
+            # nothing on the way out looks at the vector again (it is only dropped): an explicit `return Err(..)` as well as `?`
+            def mentions(o):
+                if isinstance(o, dict):
+                    if o.get("local") == local and "proj" in o:
+                        return True
+                    return any(mentions(v) for v in o.values())
+                if isinstance(o, list):
+                    return any(mentions(v) for v in o)
+                return False
+            used = False
+            for b in reach:
+                blk = self.ft.blocks[b]
+                if any(st["k"] == "assign" and (mentions(st["rv"]) or mentions(st["place"])) for st in blk["stmts"]):
+                    used = True
+                t = blk["term"]
+                if t["k"] != "drop" and mentions({k_: v_ for k_, v_ in t.items() if k_ != "span"}):
+                    used = True
+            if not used:
+                return True
         # conservative: the exit path must not reach any block that is not on a path to a return through from_residual
         for b in reach:
             t = self.ft.blocks[b]["term"]
